@@ -47,7 +47,7 @@ def floors(tier):
     return {"evaluations": 9_000 if tier == "quick" else 50_000, "distinct": 9_000 if tier == "quick" else 50_000,
             "counters": {"ops_checked": 35_000, "lockstep_compares": 60_000, "saves": 300, "reopened_tables_compared": 300, "second_saves": 20,
                          "hostile_ops": 300, "multi_document_histories": 20, "tile_boundary_tables": 5, "wide_tables": 3, "fixture_starts": 5,
-                         "cross_table_checks": 2000, "inserts_with_default": 500}}
+                         "cross_table_checks": 2000, "inserts_with_default": 500, "reloaded_merged_starts": 15}}
 
 
 def alphabet(R, C):
@@ -104,6 +104,7 @@ class TableRef:
         self.table = table
         self.grid = grid
         self.trusted_values = True
+        self.merged_rect = None  # (r0, c0, r1, c1) of a merged region the table came with: C12's business, left alone here
 
     def where(self):
         return [self.doc_i, self.sheet_i, self.table_i]
@@ -347,11 +348,39 @@ def run_random_history(case, rec):
                         t = doc.sheets[si].tables[ti]
                         g = Grid(0, 0, t.rows(values_only=True))
                         trs.append(TableRef(di, si, ti, t, g))
+            elif c < .27:
+                # a loaded document that was written by the library and has a merged region (merges are stored differently
+                # from Numbers' own files): tables added to it, and every edit next to the region, are still plain grids
+                from vf.gen import docs as gdocs
+                from vf.ref import a1
+                R, Cn = rng.randint(3, 8), rng.randint(3, 6)
+                d0 = Document(num_rows=R, num_cols=Cn, num_header_rows=0, num_header_cols=0)
+                t0 = d0.sheets[0].tables[0]
+                r0, c0 = rng.randrange(R - 1), rng.randrange(Cn - 1)
+                r1, c1 = rng.randint(r0, R - 1), rng.randint(c0 + 1, Cn - 1)
+                for _ in range(rng.randint(0, 6)):
+                    rr, cc_ = rng.randrange(R), rng.randrange(Cn)
+                    if not (r0 <= rr <= r1 and c0 <= cc_ <= c1) or (rr, cc_) == (r0, c0):
+                        t0.write(rr, cc_, rand_value(rng))
+                t0.merge_cells(a1.cell_name(r0, c0) + ":" + a1.cell_name(r1, c1))
+                pth = os.path.join(gdocs.scratch_dir(), f"c03-merged-{case['rseed']}-{di}.numbers")
+                try:
+                    d0.save(pth)
+                    doc = Document(pth)
+                finally:
+                    if os.path.exists(pth):
+                        os.remove(pth)
+                docs_.append(doc)
+                rec.count("reloaded_merged_starts")
+                t = doc.sheets[0].tables[0]
+                tr0 = TableRef(di, 0, 0, t, Grid(0, 0, t.rows(values_only=True)))
+                tr0.merged_rect = (r0, c0, r1, c1)
+                trs.append(tr0)
             else:
-                if c < .25:
+                if c < .35:
                     R, Cn = rng.choice([(255, 2), (256, 1), (257, 2), (250, 3)])
                     rec.count("tile_boundary_tables")
-                elif c < .32:
+                elif c < .42:
                     R, Cn = rng.choice([(2, 256), (3, 255), (2, 257)])
                     rec.count("wide_tables")
                 else:
@@ -375,11 +404,15 @@ def run_random_history(case, rec):
         g = tr.grid
         c = rng.random()
         op = None
+        if tr.merged_rect is not None and .42 <= c < .8:
+            c = rng.choice([.1, .83])  # no structural edits of a table with a merged region (C12): write beside it, or add a table
         if c < .42:
-            if rng.random() < .12 and g.rows < 300 and g.cols < 270:
+            if rng.random() < .12 and g.rows < 300 and g.cols < 270 and tr.merged_rect is None:
                 r, cc = g.rows + rng.randint(0, 2), rng.randrange(g.cols) if rng.random() < .5 else g.cols + rng.randint(0, 1)
             else:
                 r, cc = rng.randrange(g.rows), rng.randrange(g.cols)
+            if tr.merged_rect is not None and tr.merged_rect[0] <= r <= tr.merged_rect[2] and tr.merged_rect[1] <= cc <= tr.merged_rect[3]:
+                continue
             op = {"op": "write", "r": r, "c": cc, "v": V.enc(rand_value(rng))}
         elif c < .62:
             which = rng.choice(["add_row", "add_column"])
